@@ -21,12 +21,18 @@ func main() {
 	root := flag.String("root", "/verif", "verif root (corpus, known findings, replays)")
 	replay := flag.String("replay", "", "replay file: run that one case and print I, M, S")
 	repo := flag.String("repo", "/repo", "repository under test (for checks that read its files)")
+	childMode := flag.Bool("child", false, "child mode: cases on stdin, observations on stdout (see hx.RunIsolated)")
 	flag.Parse()
 	p := hx.Lookup(*prop)
 	if p == nil {
 		fmt.Fprintf(os.Stderr, "unknown property %q\n", *prop)
 		os.Exit(2)
 	}
+	if *childMode {
+		hx.ChildLoop(p)
+		return
+	}
+	defer hx.StopChildren()
 	ctx := &hx.Ctx{Tier: *tier, Seed: *seed, Rng: hx.NewRng(*seed), Repo: *repo, Root: *root}
 	ctx.Corpus = hx.LoadCorpus(filepath.Join(*root, "corpus", p.ID))
 	eng := &hx.Engine{P: p, Ctx: ctx, ReplayDir: filepath.Join(*root, "replays"),
